@@ -31,6 +31,8 @@ type world struct {
 	n       int  // mutating lower-layer calls seen since arm()
 	crashAt int  // -1: never; else the crashAt-th and all later mutating calls fail without effect
 	crashed bool // a call was refused
+	// everCrashed: a call was refused at some point in this world's life (not reset by arm/disarm)
+	everCrashed bool
 	quiet   bool // harness observation in progress: hooks are transparent
 	labels  []string
 	refused string     // label of the first refused call
@@ -79,6 +81,7 @@ func (w *world) reset(maxZip int) {
 	w.kv.Restore(nil)
 	w.maxZip = maxZip
 	w.disarm()
+	w.everCrashed = false
 	blobserver.VerifResetHubs()
 }
 
@@ -140,6 +143,7 @@ func (w *world) mutating(label string) error {
 			w.refused = label
 		}
 		w.crashed = true
+		w.everCrashed = true
 		w.mu.Unlock()
 		return errFrozen
 	}
